@@ -1,6 +1,6 @@
 import LunarVerif.Proofs.C12
-/-! C12, response-based throttling remedy: source-of-entry invariant, the code-faithful Spec (`slack = true`)
-for every run, and the strict Spec outside the excluded class (F12b). -/
+/-! C12, response-based throttling remedy: source-of-entry invariant and the Spec for every run, for every
+absolute-TTL function that satisfies `AbsTtlOk`. -/
 set_option linter.unusedSectionVars false
 set_option linter.unusedSimpArgs false
 namespace LunarVerif.C12
@@ -9,24 +9,24 @@ section
 variable {σ : Type} [DecidableEq σ]
 
 /-- `r0` is the response from which entry `e` under key `k` was stored. -/
-def TSrc (cfg : TCfg) (k : σ × σ) (e : Entry (Stored σ)) (r0 : PRec σ) : Prop :=
-  ∃ m u sel j r bl sz n ttl, r0.op = .resp m u sel j r bl sz ∧ k = (m, u) ∧
+def TSrc (f : AbsTtl) (cfg : TCfg) (k : σ × σ) (e : Entry (Stored σ)) (r0 : PRec σ) : Prop :=
+  ∃ m u sel r bl sz n ttl, r0.op = .resp m u sel r bl sz ∧ k = (m, u) ∧
     cfg.statuses.contains r.status = true ∧ e.val = ⟨r, r0.t⟩ ∧ r.raNs = some n ∧
-    ttlOf cfg r0.t n = some ttl ∧ e.expiry = r0.t + ttl
+    ttlOf f cfg r0.t n = some ttl ∧ e.expiry = r0.t + ttl ∧ ttl > 0
 
-structure TInv (cfg : TCfg) (h : List (PRec σ)) (c : TCache σ) : Prop where
-  src : ∀ k e, find? k c.entries = some e → ∃ r0, r0 ∈ h ∧ TSrc cfg k e r0
+structure TInv (f : AbsTtl) (cfg : TCfg) (h : List (PRec σ)) (c : TCache σ) : Prop where
+  src : ∀ k e, find? k c.entries = some e → ∃ r0, r0 ∈ h ∧ TSrc f cfg k e r0
   time : ∀ r0, r0 ∈ h → r0.t ≤ c.now
 
-theorem tinv_init (cfg : TCfg) (t0 : Int) : TInv cfg ([] : List (PRec σ)) (Cache.init t0 false 0) := by
+theorem tinv_init (f : AbsTtl) (cfg : TCfg) (t0 : Int) : TInv f cfg ([] : List (PRec σ)) (Cache.init t0 false 0) := by
   constructor
   · intro k e hf; simp [Cache.init, find?] at hf
   · intro r0 hr; cases hr
 
-theorem tinv_shrink {cfg : TCfg} {h : List (PRec σ)} {c c' : TCache σ} (r : PRec σ)
-    (hinv : TInv cfg h c) (hrt : r.t = c.now)
+theorem tinv_shrink {f : AbsTtl} {cfg : TCfg} {h : List (PRec σ)} {c c' : TCache σ} (r : PRec σ)
+    (hinv : TInv f cfg h c) (hrt : r.t = c.now)
     (hent : ∀ k e, find? k c'.entries = some e → find? k c.entries = some e)
-    (hnow : c.now ≤ c'.now) : TInv cfg (r :: h) c' := by
+    (hnow : c.now ≤ c'.now) : TInv f cfg (r :: h) c' := by
   constructor
   · intro k e hf
     obtain ⟨r0, hm, hs⟩ := hinv.src k e (hent k e hf)
@@ -36,17 +36,17 @@ theorem tinv_shrink {cfg : TCfg} {h : List (PRec σ)} {c c' : TCache σ} (r : PR
     · rw [h1, hrt]; exact hnow
     · have := hinv.time r0 h1; omega
 
-theorem tstep_req_fst (cfg : TCfg) (c : TCache σ) (m u : σ) (sel : List (σ × σ)) (j : σ) :
-    (tstep cfg c (.req m u sel j)).1 = c := by
+theorem tstep_req_fst (f : AbsTtl) (cfg : TCfg) (c : TCache σ) (m u : σ) (sel : List (σ × σ)) :
+    (tstep f cfg c (.req m u sel)).1 = c := by
   simp only [tstep]
   repeat' (first | rfl | split)
 
-theorem tstep_inv (cfg : TCfg) (c : TCache σ) (h : List (PRec σ)) (op : POp σ)
-    (hinv : TInv cfg h c) : TInv cfg (⟨c.now, op, (tstep cfg c op).2⟩ :: h) (tstep cfg c op).1 := by
-  have same : ∀ o, TInv cfg (⟨c.now, op, o⟩ :: h) c := fun o =>
+theorem tstep_inv (f : AbsTtl) (cfg : TCfg) (c : TCache σ) (h : List (PRec σ)) (op : POp σ)
+    (hinv : TInv f cfg h c) : TInv f cfg (⟨c.now, op, (tstep f cfg c op).2⟩ :: h) (tstep f cfg c op).1 := by
+  have same : ∀ o, TInv f cfg (⟨c.now, op, o⟩ :: h) c := fun o =>
     tinv_shrink ⟨c.now, op, o⟩ hinv rfl (fun _ _ x => x) (Int.le_refl _)
   cases op with
-  | resp m u sel j r bl sz =>
+  | resp m u sel r bl sz =>
     simp only [tstep]
     by_cases hst : cfg.statuses.contains r.status = true
     · simp only [hst, Bool.not_true, Bool.false_eq_true, if_false]
@@ -56,14 +56,16 @@ theorem tstep_inv (cfg : TCfg) (c : TCache σ) (h : List (PRec σ)) (op : POp σ
         cases hra : r.raNs with
         | none => simp only [Option.bind]; exact same _
         | some n =>
-          cases httl : ttlOf cfg c.now n with
+          cases httl : ttlOf f cfg c.now n with
           | none => simp only [Option.bind, httl]; exact same _
           | some ttl =>
             simp only [Option.bind, httl]
             constructor
             · intro k e hf
-              rcases find?_set hf with ⟨hk, he, _⟩ | ⟨_, _, hb⟩ | ⟨_, hb⟩
-              · refine ⟨_, List.mem_cons_self, m, u, sel, j, r, bl, sz, n, ttl, rfl, hk, hst, ?_, hra, httl, ?_⟩
+              rcases find?_set hf with ⟨hk, he, hok⟩ | ⟨_, _, hb⟩ | ⟨_, hb⟩
+              · have hpos : ttl > 0 := by
+                  rw [hk] at hf; exact find?_set_ok_pos hok hf
+                refine ⟨_, List.mem_cons_self, m, u, sel, r, bl, sz, n, ttl, rfl, hk, hst, ?_, hra, httl, ?_, hpos⟩
                 · rw [he]
                 · rw [he]
               · obtain ⟨r0, hm, hs⟩ := hinv.src k e hb
@@ -76,8 +78,8 @@ theorem tstep_inv (cfg : TCfg) (c : TCache σ) (h : List (PRec σ)) (op : POp σ
               · rw [h1]; exact Int.le_refl _
               · exact hinv.time r0 h1
     · simp only [hst, Bool.not_false, if_true]; exact same _
-  | req m u sel j =>
-    have := same (tstep cfg c (.req m u sel j)).2
+  | req m u sel =>
+    have := same (tstep f cfg c (.req m u sel)).2
     rw [tstep_req_fst]; exact this
   | fire i =>
     simp only [tstep]
@@ -90,18 +92,18 @@ theorem tstep_inv (cfg : TCfg) (c : TCache σ) (h : List (PRec σ)) (op : POp σ
     exact tinv_shrink _ hinv rfl (fun _ _ x => find?_adv x) (by rw [adv_now]; omega)
   | probe => simp only [tstep]; exact same _
 
-theorem tstep_recOk (cfg : TCfg) (c : TCache σ) (h : List (PRec σ)) (op : POp σ)
-    (hinv : TInv cfg h c) : tRecOk true cfg ⟨c.now, op, (tstep cfg c op).2⟩ h = true := by
+theorem tstep_recOk (f : AbsTtl) (hf : AbsTtlOk f) (cfg : TCfg) (c : TCache σ) (h : List (PRec σ)) (op : POp σ)
+    (hinv : TInv f cfg h c) : tRecOk cfg ⟨c.now, op, (tstep f cfg c op).2⟩ h = true := by
   cases op with
-  | resp m u sel j r bl sz => simp [tRecOk]
-  | req m u sel j =>
+  | resp m u sel r bl sz => simp [tRecOk]
+  | req m u sel =>
     simp only [tstep]
     cases hg : get c (m, u) with
     | none => simp [tRecOk]
     | some s =>
-      obtain ⟨e, hf, hv, hle⟩ := get_some hg
-      obtain ⟨r0, hm, m0, u0, sel0, j0, r, bl, sz, n, ttl, hop, hk, hst, hval, hra, httl, hexp⟩ :=
-        hinv.src _ e hf
+      obtain ⟨e, hfe, hv, hle⟩ := get_some hg
+      obtain ⟨r0, hm, m0, u0, sel0, r, bl, sz, n, ttl, hop, hk, hst, hval, hra, httl, hexp, hpos⟩ :=
+        hinv.src _ e hfe
       have ht := hinv.time r0 hm
       have hk' : m0 = m ∧ u0 = u := by cases hk; exact ⟨rfl, rfl⟩
       rw [hv] at hval
@@ -126,95 +128,31 @@ theorem tstep_recOk (cfg : TCfg) (c : TCache σ) (h : List (PRec σ)) (op : POp 
         simp only [tRecOk]
         rw [List.any_eq_true]
         refine ⟨r0, hm, ?_⟩
-        simp only [tJustifies, hop, hty, hra, hk'.1, hk'.2, hst, hres, if_true, decide_true, Bool.and_self,
+        simp only [tJustifies, hop, hty, hra, hk'.1, hk'.2, hst, hres, decide_true, Bool.and_self,
           Bool.true_and, Bool.and_true, Bool.and_eq_true, decide_eq_true_eq]
         refine ⟨ht, ?_⟩
-        simp only [nsPerSec] at httl ⊢
-        omega
+        rcases hf n r0.t with h1 | h1
+        · omega
+        · omega
       | undef => simp [ttlOf, hty] at httl
   | fire i => simp [tstep, tRecOk]
   | skip d => simp [tstep, tRecOk]
   | adv d => simp [tstep, tRecOk]
   | probe => simp [tstep, tRecOk]
 
-theorem trun_holdsRev (cfg : TCfg) (ops : List (POp σ)) (c : TCache σ)
-    (h : List (PRec σ)) (hinv : TInv cfg h c) (hh : tholdsRev true cfg h = true) :
-    tholdsRev true cfg ((trun cfg c ops).reverse ++ h) = true := by
+theorem trun_holdsRev (f : AbsTtl) (hf : AbsTtlOk f) (cfg : TCfg) (ops : List (POp σ)) (c : TCache σ)
+    (h : List (PRec σ)) (hinv : TInv f cfg h c) (hh : tholdsRev cfg h = true) :
+    tholdsRev cfg ((trun f cfg c ops).reverse ++ h) = true := by
   induction ops generalizing c h with
   | nil => simpa [trun] using hh
   | cons op ops ih =>
     simp only [trun, List.reverse_cons, List.append_assoc, List.singleton_append]
     apply ih
-    · exact tstep_inv cfg c h op hinv
+    · exact tstep_inv f cfg c h op hinv
     · simp only [tholdsRev, Bool.and_eq_true]
-      exact ⟨tstep_recOk cfg c h op hinv, hh⟩
+      exact ⟨tstep_recOk f hf cfg c h op hinv, hh⟩
 
-/-- With whole-second store instants (or a non-absolute type) the slack is zero. -/
-theorem tJustifies_strict (cfg : TCfg) (t : Int) (m u : σ) (st : Nat) (body : σ) (tag : Option σ)
-    (ra : RaOut σ) (r0 : PRec σ) (hal : cfg.type ≠ .abs ∨ r0.t % nsPerSec = 0)
-    (hj : tJustifies true cfg t m u st body tag ra r0 = true) :
-    tJustifies false cfg t m u st body tag ra r0 = true := by
-  cases hop : r0.op with
-  | resp m0 u0 sel0 j0 r bl sz =>
-    simp only [tJustifies, hop] at hj ⊢
-    cases hra : r.raNs with
-    | none =>
-      cases hty : cfg.type <;> simp [hty, hra] at hj
-    | some n =>
-      cases hty : cfg.type with
-      | abs =>
-        have h0 : r0.t % nsPerSec = 0 := by
-          rcases hal with h1 | h1
-          · exact absurd hty h1
-          · exact h1
-        simpa [hty, hra, h0] using hj
-      | rel => simpa [hty, hra] using hj
-      | undef => simp [hty, hra] at hj
-  | req _ _ _ _ => simp [tJustifies, hop] at hj
-  | fire _ => simp [tJustifies, hop] at hj
-  | skip _ => simp [tJustifies, hop] at hj
-  | adv _ => simp [tJustifies, hop] at hj
-  | probe => simp [tJustifies, hop] at hj
-
-theorem tholdsRev_strict (cfg : TCfg) (h : List (PRec σ))
-    (hal : cfg.type ≠ .abs ∨ ∀ r, r ∈ h → r.t % nsPerSec = 0)
-    (hh : tholdsRev true cfg h = true) : tholdsRev false cfg h = true := by
-  induction h with
-  | nil => rfl
-  | cons r older ih =>
-    simp only [tholdsRev, Bool.and_eq_true] at hh ⊢
-    have hal' : cfg.type ≠ .abs ∨ ∀ r, r ∈ older → r.t % nsPerSec = 0 := by
-      rcases hal with h1 | h1
-      · exact Or.inl h1
-      · exact Or.inr fun r hr => h1 r (List.mem_cons_of_mem _ hr)
-    refine ⟨?_, ih hal' hh.2⟩
-    have hr := hh.1
-    cases hop : r.op with
-    | req m u sel j =>
-      cases hout : r.out with
-      | early st body tag ra =>
-        simp only [tRecOk, hop, hout, List.any_eq_true] at hr ⊢
-        obtain ⟨r0, hm, hj⟩ := hr
-        refine ⟨r0, hm, tJustifies_strict cfg _ _ _ _ _ _ _ r0 ?_ hj⟩
-        rcases hal' with h1 | h1
-        · exact Or.inl h1
-        · exact Or.inr (h1 r0 hm)
-      | noop => simp [tRecOk, hop, hout]
-      | fired _ => simp [tRecOk, hop, hout] at hr
-      | advd _ => simp [tRecOk, hop, hout] at hr
-      | unit => simp [tRecOk, hop, hout] at hr
-      | probed _ _ _ _ => simp [tRecOk, hop, hout] at hr
-    | resp _ _ _ _ _ _ _ => simp [tRecOk, hop]
-    | fire _ => simp [tRecOk, hop]
-    | skip _ => simp [tRecOk, hop]
-    | adv _ => simp [tRecOk, hop]
-    | probe => simp [tRecOk, hop]
-
-theorem secondAligned_prop {cfg : TCfg} {h : List (PRec σ)} (hs : secondAligned cfg h = true) :
-    cfg.type ≠ .abs ∨ ∀ r, r ∈ h → r.t % nsPerSec = 0 := by
-  simp only [secondAligned, Bool.or_eq_true, Bool.not_eq_true', decide_eq_false_iff_not, List.all_eq_true,
-    decide_eq_true_eq] at hs
-  exact hs
+theorem absTtlExact_ok : AbsTtlOk absTtlExact := fun _ _ => Or.inl (Int.le_refl _)
 
 end
 
